@@ -165,6 +165,9 @@ restart:
  * @param[in] drec
  */
 static void htp_gzip_decompressor_end(htp_decompressor_gzip_t *drec) {
+    // Nothing buffered may be handed out again once the decompressor is ended.
+    drec->stream.next_out = drec->buffer;
+    drec->stream.avail_out = GZIP_BUF_SIZE;
     if (drec->zlib_initialized == HTP_COMPRESSION_LZMA) {
         LzmaDec_Free(&drec->state, &lzma_Alloc);
         drec->zlib_initialized = 0;
